@@ -8,11 +8,14 @@ graph, runs the REAL repr()/str() and encodes heap + observations as a Gallina t
 """
 from __future__ import annotations
 
+import ast
+import inspect
 import itertools
 import json
 import linecache
 import queue
 import random
+import textwrap
 import threading
 import types
 
@@ -61,6 +64,9 @@ ASSUMPTIONS = [
     "custom repr callables do not mutate the object graph and do not touch attr._compat.repr_context",
     "one OS thread = one threading.local namespace = one CPython thread state (no greenlets)",
 ]
+
+EXTRA_TARGETS = ["theories/C11/Script.vo"]
+SCRIPT_HEADER = "From Attrs Require Import Base C11.Model C11.Script."
 
 TIMEOUT = 20.0
 
@@ -133,8 +139,8 @@ def _field_src(deco, cidx, f):
 
 def _deco_src(cs, is_base=False):
     kw = ["slots=%r" % bool(cs["slots"]), "eq=False", "frozen=%r" % bool(cs.get("frozen", False))]
-    if cs.get("str") and not is_base:
-        kw.append("str=True")
+    if (cs.get("str") and not is_base) or (is_base and cs.get("base_strflag")):
+        kw.append("str=True")       # base_strflag: ONLY the attrs base passes str=True; the subclass inherits __str__
     if cs.get("own_init") and not is_base:
         kw.append("init=False")     # class-level init=False: the hand-written __init__ sets nothing
     return "@%s(%s)" % ("attrs.define" if cs["deco"] == "define" else "attr.s", ", ".join(kw))
@@ -149,6 +155,22 @@ def _class_lines(ind, deco, cname, bases, body):
     for l in body or ["pass"]:
         out.append(pad + "    " + l)
     return out
+
+
+HANDMADE = "<handmade repr>"
+
+
+def _sub_body(cs, ind):
+    """body of the undecorated subclass: empty, or a hand-written __repr__ (own_repr)."""
+    pad = " " * ind
+    if cs.get("own_repr"):
+        return [pad + "def __repr__(self):", pad + "    return %r" % HANDMADE]
+    return [pad + "pass"]
+
+
+def has_generated_str(cs):
+    """str() of an instance reaches an attrs-generated __str__ (str=True on the class or on its attrs base)."""
+    return bool(cs.get("str") or (cs.get("base") and cs.get("base_strflag")))
 
 
 def class_source(cs, cidx):
@@ -180,11 +202,11 @@ def class_source(cs, cidx):
             src += ["CLS = mk%s()" % n]
             tail = n
         elif nm == "sub_of_local":
-            src += ["def mks%s(B):" % n, "    class S%s(B):" % n, "        pass", "    return S%s" % n,
+            src += ["def mks%s(B):" % n, "    class S%s(B):" % n] + _sub_body(cs, 8) + ["    return S%s" % n,
                     "CLS = mks%s(mk%s())" % (n, n)]
             tail = "S" + n
         else:
-            src += ["class S%s(mk%s()):" % (n, n), "    pass", "CLS = S%s" % n]
+            src += ["class S%s(mk%s()):" % (n, n)] + _sub_body(cs, 4) + ["CLS = S%s" % n]
             tail = "S" + n
     elif nm == "nested_in_local":
         src += ["def mk%s():" % n, "    class Outer%s:" % n] + _class_lines(8, deco, n, bases, body) + \
@@ -241,6 +263,205 @@ def _mk_callable(ctx, key, rm):
     return fn
 
 
+# --------------------------------------------------------------------------------------
+# script-level tie: fail-closed reader of the source text of a REAL generated __repr__ into the
+# statement language of coq/theories/C11/Script.v (supplementary evidence, never an alarm)
+
+class Unrecognised(Exception):
+    pass
+
+
+_VAR = "already_repring"
+_script_terms = {}          # key -> (Gallina script_case term, source text)
+_script_unrecognised = []
+
+
+def _nm(n, ident):
+    return isinstance(n, ast.Name) and n.id == ident
+
+
+def _id_self(n):
+    return (isinstance(n, ast.Call) and _nm(n.func, "id") and len(n.args) == 1 and _nm(n.args[0], "self")
+            and not n.keywords)
+
+
+def _tls(n):
+    return (isinstance(n, ast.Attribute) and n.attr == _VAR and isinstance(n.value, ast.Attribute)
+            and n.value.attr == "repr_context" and _nm(n.value.value, "_compat"))
+
+
+def _accessor(n):
+    if isinstance(n, ast.Attribute) and _nm(n.value, "self"):
+        return n.attr, True
+    if (isinstance(n, ast.Call) and _nm(n.func, "getattr") and not n.keywords and len(n.args) == 3
+            and _nm(n.args[0], "self") and isinstance(n.args[1], ast.Constant) and isinstance(n.args[1].value, str)
+            and _nm(n.args[2], "NOTHING")):
+        return n.args[1].value, False
+    raise Unrecognised("accessor " + ast.dump(n))
+
+
+def _is_qualtail(n):
+    # self.__class__.__qualname__.rsplit(">.", 1)[-1]
+    if not (isinstance(n, ast.Subscript) and isinstance(n.slice, ast.UnaryOp) and isinstance(n.slice.op, ast.USub)
+            and isinstance(n.slice.operand, ast.Constant) and n.slice.operand.value == 1):
+        return False
+    c = n.value
+    if not (isinstance(c, ast.Call) and isinstance(c.func, ast.Attribute) and c.func.attr == "rsplit"
+            and not c.keywords and len(c.args) == 2 and all(isinstance(a, ast.Constant) for a in c.args)
+            and c.args[0].value == ">." and c.args[1].value == 1 and type(c.args[1].value) is int):
+        return False
+    q_ = c.func.value
+    return (isinstance(q_, ast.Attribute) and q_.attr == "__qualname__" and isinstance(q_.value, ast.Attribute)
+            and q_.value.attr == "__class__" and _nm(q_.value.value, "self"))
+
+
+def _piece(n):
+    if isinstance(n, ast.Constant) and isinstance(n.value, str):
+        return ("t", n.value)
+    if isinstance(n, ast.FormattedValue) and n.format_spec is None:
+        if n.conversion == ord("r"):
+            name, init = _accessor(n.value)
+            return ("f", name, init, None)
+        if n.conversion == -1:
+            if _is_qualtail(n.value):
+                return ("q",)
+            v = n.value
+            if (isinstance(v, ast.Call) and isinstance(v.func, ast.Name) and v.func.id.startswith("__attr_repr_")
+                    and len(v.args) == 1 and not v.keywords):
+                name, init = _accessor(v.args[0])
+                return ("f", name, init, v.func.id[len("__attr_repr_"):])
+    raise Unrecognised("f-string piece " + ast.dump(n))
+
+
+def _enc_pieces(ps):
+    out, merged = [], []
+    for p in ps:            # adjacent literal text is one constant (ast already does this; be safe)
+        if p[0] == "t" and merged and merged[-1][0] == "t":
+            merged[-1] = ("t", merged[-1][1] + p[1])
+        else:
+            merged.append(p)
+    for p in merged:
+        if p[0] == "t":
+            if not all(32 <= ord(ch) < 127 for ch in p[1]):
+                raise Unrecognised("non-ascii literal")
+            out.append("QText %s" % q(p[1]))
+        elif p[0] == "q":
+            out.append("QQual")
+        else:
+            out.append("QField %s %s %s" % (q(p[1]), b(p[2]), "None" if p[3] is None else "(Some %s)" % q(p[3])))
+    return lst(out)
+
+
+def _s0(st):
+    if isinstance(st, ast.Assign) and len(st.targets) == 1:
+        t, v = st.targets[0], st.value
+        if _nm(t, _VAR) and isinstance(v, ast.Set) and len(v.elts) == 1 and _id_self(v.elts[0]):
+            return "ZFresh"
+        if _tls(t) and _nm(v, _VAR):
+            return "ZStore"
+    if isinstance(st, ast.Return) and st.value is not None:
+        v = st.value
+        if isinstance(v, ast.Constant) and isinstance(v.value, str) and all(32 <= ord(c) < 127 for c in v.value):
+            return "ZRetStr %s" % q(v.value)
+        if isinstance(v, ast.JoinedStr):
+            return "ZRetF %s" % _enc_pieces([_piece(x) for x in v.values])
+    if isinstance(st, ast.Expr) and isinstance(st.value, ast.Call):
+        c = st.value
+        if (isinstance(c.func, ast.Attribute) and _nm(c.func.value, _VAR) and len(c.args) == 1 and _id_self(c.args[0])
+                and not c.keywords and c.func.attr in ("add", "remove")):
+            return "ZAdd" if c.func.attr == "add" else "ZRemove"
+    raise Unrecognised("statement " + ast.dump(st))
+
+
+def _s1(st):
+    if isinstance(st, ast.If):
+        t = st.test
+        if (isinstance(t, ast.Compare) and _id_self(t.left) and len(t.ops) == 1 and isinstance(t.ops[0], ast.In)
+                and len(t.comparators) == 1 and _nm(t.comparators[0], _VAR)):
+            return "YIfMem %s %s" % (lst("(%s)" % _s0(x) for x in st.body), lst("(%s)" % _s0(x) for x in st.orelse))
+        raise Unrecognised("if " + ast.dump(t))
+    return "Y0 (%s)" % _s0(st)
+
+
+def _s2(st):
+    if isinstance(st, ast.Try):
+        if st.handlers and not st.finalbody:
+            if (len(st.body) == 1 and isinstance(st.body[0], ast.Assign) and len(st.body[0].targets) == 1
+                    and _nm(st.body[0].targets[0], _VAR) and _tls(st.body[0].value) and len(st.handlers) == 1
+                    and _nm(st.handlers[0].type, "AttributeError") and st.handlers[0].name is None):
+                return "XTryTls %s %s" % (lst("(%s)" % _s1(x) for x in st.handlers[0].body),
+                                          lst("(%s)" % _s1(x) for x in st.orelse))
+        elif st.finalbody and not st.handlers and not st.orelse:
+            return "XTryFin %s %s" % (lst("(%s)" % _s1(x) for x in st.body), lst("(%s)" % _s1(x) for x in st.finalbody))
+        raise Unrecognised("try " + ast.dump(st)[:300])
+    return "X1 (%s)" % _s1(st)
+
+
+def parse_repr(src):
+    """source text of a generated __repr__ -> Gallina term of type `list s2` (or Unrecognised)."""
+    try:
+        tree = ast.parse(textwrap.dedent(src))
+    except SyntaxError as e:
+        raise Unrecognised("syntax error: %s" % e)
+    if len(tree.body) != 1 or not isinstance(tree.body[0], ast.FunctionDef):
+        raise Unrecognised("not a single function")
+    fn = tree.body[0]
+    a = fn.args
+    if (fn.name != "__repr__" or fn.decorator_list or a.vararg or a.kwarg or a.kwonlyargs or a.posonlyargs
+            or a.defaults or len(a.args) != 1 or a.args[0].arg != "self"):
+        raise Unrecognised("signature")
+    return lst("(%s)" % _s2(x) for x in fn.body)
+
+
+def _enc_fields(cs):
+    return lst("F %s %s %s" % (q(f[0]), enc_rmode(f[1]), b(f[2])) for f in all_fields(cs))
+
+
+def _collect_script(cs, cls):
+    try:
+        src = inspect.getsource((cls.__mro__[1] if cs.get("own_repr") else cls).__repr__)
+    except Exception as e:  # noqa: BLE001
+        _script_unrecognised.append("no source: %r" % (e,))
+        return
+    fields = _enc_fields(cs)
+    key = (fields, src)
+    if key in _script_terms:
+        return
+    try:
+        _script_terms[key] = ("(SCase %s %s)" % (fields, parse_repr(src)), src)
+    except Unrecognised as e:
+        _script_terms[key] = None
+        _script_unrecognised.append("%s\n--- source:\n%s" % (e, src))
+
+
+def script_tie():
+    terms = [v for v in _script_terms.values() if v is not None]
+    if not terms and not _script_unrecognised:
+        return {"script_tie": "no classes"}
+    bad = vlib.run_cases(PROP, SCRIPT_HEADER, "script_case", "script_case_ok", [t for t, _ in terms],
+                         tag="script") if terms else []
+    res = {"classes_parsed": len(terms), "equal": len(terms) - len(bad), "different": len(bad),
+           "unrecognised": len(_script_unrecognised),
+           "note": "distinct (field list, source text) pairs of the generated __repr__ of this run; "
+                   "supplementary evidence, never an alarm"}
+    if bad:
+        t, src = terms[bad[0]]
+        res["first_difference"] = {"real_source": src,
+                                   "model_script": vlib.eval_in_coq(PROP, SCRIPT_HEADER,
+                                                                    "script_model_of (%s)" % t)[:3000]}
+        print("NOTE: script-level tie: %d of %d real __repr__ sources differ from the model's script "
+              "(not a verdict; see evidence)" % (len(bad), len(terms)))
+    if _script_unrecognised:
+        res["first_unrecognised"] = _script_unrecognised[0][:1500]
+        print("NOTE: script-level tie: %d real __repr__ source(s) have a shape the reader does not know "
+              "(not a verdict; see evidence)" % len(_script_unrecognised))
+    return {"script_tie": res}
+
+
+def extra(tier, seed):
+    return [], dict(script_tie(), runtime_observations=0)
+
+
 def build_classes(specs, ctx):
     calls = {}
     for ci, cs in enumerate(specs):
@@ -257,6 +478,7 @@ def build_classes(specs, ctx):
         qn = cls.__qualname__
         if qn.rsplit(">.", 1)[-1] != tail or (">." in tail):
             raise Infra("harness naming template broken: %r vs %r" % (qn, tail))
+        _collect_script(cs, cls)
         out.append(cls)
     return out
 
@@ -501,9 +723,14 @@ def enc_heap(inp, info):
         k = nd["k"]
         if k == "i":
             cs = inp["classes"][nd["c"]]
+            if cs.get("own_repr"):
+                # the runtime class has a hand-written __repr__ returning a constant: for repr() (and for
+                # an inherited generated __str__, which calls self.__repr__()) it is a scalar
+                out.append("OS %s" % q(HANDMADE))
+                continue
             fs = lst("F %s %s %s" % (q(f[0]), enc_rmode(f[1]), b(f[2])) for f in all_fields(cs))
             at = lst("(%s, %d)" % (q(f[0]), nd["a"][f[0]]) for f in all_fields(cs) if f[0] in nd["a"])
-            out.append("OI %s %s %s %s %s" % (q(info["qualnames"][i]), b(bool(cs.get("str"))),
+            out.append("OI %s %s %s %s %s" % (q(info["qualnames"][i]), b(has_generated_str(cs)),
                                               '(Some "bstr")' if cs.get("base_str") else "None", fs, at))
         elif k == "l":
             out.append("OL %s" % lst(str(x) for x in nd["e"]))
@@ -554,6 +781,9 @@ def mk_case(inp, family=None):
                nd["k"] == "i" and any((not f[2]) and _dflt(f) and f[0] not in nd["a"]
                                       for f in all_fields(inp["classes"][nd["c"]]))
                for nd in inp["nodes"]),
+           "inherited_generated_str": any(
+               (cs.get("base") and cs.get("base_strflag") and not cs.get("str")) or cs.get("own_repr")
+               for cs in inp["classes"]) and any(c[0] == "str" for c in inp["calls"]),
            "made_by_new": any(nd.get("mk") == "new" for nd in inp["nodes"]),
            "own_init": any(cs.get("own_init") for cs in inp["classes"])}
     return Case(term, inp, seen_json, sig=sig, nontrivial=nontrivial,
@@ -570,7 +800,8 @@ RMODES = [True, False, LEAF, WRAP]
 
 def _cls(name, fields, **kw):
     d = {"name": name, "deco": "attr.s", "slots": False, "frozen": False, "naming": "top", "str": False,
-         "base_str": False, "base": None, "fields": fields, "own_init": False}
+         "base_str": False, "base": None, "fields": fields, "own_init": False, "base_strflag": False,
+         "own_repr": False}
     d.update(kw)
     return d
 
@@ -595,6 +826,30 @@ def _format_case(deco, slots, naming, rm, fstate, dflt, how):
 
 
 FSTATES = ["init_set", "init_unset", "noinit_unset", "noinit_set"]
+
+
+def gen_format_inherited_str():
+    """Only an ANCESTOR passes str=True; the runtime class inherits the generated __str__ but has another
+    __repr__: an attrs subclass adding fields (any repr kind), or a plain subclass with a hand-written
+    __repr__ (or none).  str() must equal repr() of the runtime class."""
+    out = []
+    for deco, slots, rm, init, kind, bstr in itertools.product(
+            ["attr.s", "define"], [False, True], RMODES, [True, False],
+            ["attrs_sub", "plain_own_repr", "plain_local_own_repr", "plain"], [False, True]):
+        rmj = rm if isinstance(rm, bool) else [rm[0], "L" if rm[0] == "leaf" else "W"]
+        own = [["x", rmj, init], ["z", True, False]]
+        a = {"b": 1, "x": 2} if init else {"b": 1}
+        if kind == "attrs_sub":
+            cs = _cls("C", own, deco=deco, slots=slots, naming="top" if slots else "local", str=False,
+                      base=[["b", True, True]], base_strflag=True, base_str=bstr)
+        else:
+            cs = _cls("C", [["b", True, True]] + own, deco=deco, slots=slots,
+                      naming="sub_of_local" if kind == "plain_local_own_repr" else "sub_top",
+                      str=True, base_str=bstr, own_repr=(kind != "plain"))
+        nodes = [{"k": "i", "c": 0, "a": a, "mk": "ctor"}, {"k": "s", "v": ["i", 1]}, {"k": "s", "v": ["s", "it's"]}]
+        out.append({"family": "format", "classes": [cs], "nodes": nodes,
+                    "calls": [["repr", 0], ["str", 0], ["repr", 0]], "faults": [], "warm": False})
+    return out
 
 
 def gen_format_exhaustive():
@@ -641,10 +896,13 @@ def rand_class(rng, idx, maxf=4, simple_names=False):
                 for j in range(rng.randint(1, 2))]
     fields = [[names.pop(), rand_rmode(rng, "%d%d" % (idx, j)), rng.random() < 0.7, rand_dflt(rng)]
               for j in range(nf)]
-    return _cls("K%d" % idx, fields, deco=rng.choice(["attr.s", "define"]), slots=rng.random() < 0.5,
+    cs = _cls("K%d" % idx, fields, deco=rng.choice(["attr.s", "define"]), slots=rng.random() < 0.5,
                 frozen=rng.random() < 0.2, naming="top" if simple_names and rng.random() < 0.5 else rng.choice(NAMINGS),
                 str=rng.random() < 0.4, base_str=rng.random() < 0.3, base=base,
-                own_init=rng.random() < 0.2)
+                own_init=rng.random() < 0.2, base_strflag=rng.random() < 0.4, own_repr=rng.random() < 0.3)
+    if cs["naming"] not in ("sub_of_local", "sub_top"):
+        cs["own_repr"] = False      # only the undecorated subclass can carry a hand-written __repr__
+    return cs
 
 
 def gen_format_random(rng):
@@ -656,7 +914,7 @@ def gen_format_random(rng):
         if rng.random() < p:
             nodes[0]["a"][f[0]] = rng.randint(1, 4)
     return {"family": "format", "classes": [cs], "nodes": nodes,
-            "calls": [["repr", 0], ["str", 0]] if cs["str"] else [["repr", 0], ["repr", 0]],
+            "calls": [["repr", 0], ["str", 0]] if has_generated_str(cs) else [["repr", 0], ["repr", 0]],
             "faults": [], "warm": rng.random() < 0.3}
 
 
@@ -703,7 +961,7 @@ def gen_graph(rng, max_nodes=6, max_items=3, p_unset=0.04):
     for _ in range(rng.randint(1, 3)):
         o = rng.randrange(k)
         # str() only where the property speaks (str=True) or where it is CPython's business (containers)
-        can_str = nodes[o]["k"] != "i" or classes[nodes[o]["c"]]["str"]
+        can_str = nodes[o]["k"] != "i" or has_generated_str(classes[nodes[o]["c"]])
         calls.append(["str" if can_str and rng.random() < 0.3 else "repr", o])
     return {"family": "graph", "classes": classes, "nodes": nodes, "calls": calls, "faults": [],
             "warm": rng.random() < 0.3}
@@ -808,7 +1066,9 @@ SIZES = {
 def generate(tier, seed):
     rng = random.Random(seed)
     sz = SIZES[tier]
-    inputs = list(gen_format_exhaustive())
+    _script_terms.clear()
+    _script_unrecognised.clear()
+    inputs = list(gen_format_exhaustive()) + gen_format_inherited_str()
     for _ in range(sz["format_random"]):
         inputs.append(gen_format_random(rng))
     for _ in range(sz["graph"]):
@@ -880,6 +1140,7 @@ def distribution(cases):
             "with_cycle_marker": sum(1 for c in cases if c.sig["marker"]),
             "with_fault": sum(1 for c in cases if c.sig["fault"]),
             "unset_init_false_field_with_default": sum(1 for c in cases if c.sig["noinit_default_unset"]),
+            "str_through_inherited_generated___str__": sum(1 for c in cases if c.sig["inherited_generated_str"]),
             "instance_made_by___new__": sum(1 for c in cases if c.sig["made_by_new"]),
             "class_level_init_false_own_init": sum(1 for c in cases if c.sig["own_init"]),
             "threads_2": sum(1 for c in cases if c.sig["threaded"] and len(c.inp["calls"]) == 2),
